@@ -97,6 +97,7 @@ func checkC02(r *Run) propMeta {
 	checkReorderDependencyCoverage(r, op)
 	checkPathOrderUnreversed(r, r.MustPkg("cypher/models/pgsql/translate"))
 	checkSequentialSwap(r, "C02-R10-sequential-swap", "a lowering that mirrors start and end for the inbound direction walks from the wrong end, so the optimised statement returns other rows than the plain translation", r.MustPkg("cypher/models/pgsql/translate"), op, r.MustPkg("cypher/models/pgsql"))
+	checkCollectorGrows(r, "C02-R11-collector-grows", r.MustPkg("cypher/models/pgsql/translate"), r.MustPkg("cypher/models/pgsql/optimize"))
 	r.Floor("C02-R1-guard-slice", 12)
 	return meta
 }
